@@ -57,13 +57,33 @@ def load_propcfg():
         PROPCFG.update(json.load(open(p)))
 
 
+def base_variant(variant):
+    return variant.split("+")[0]
+
+
 def build_worker(scratch, variant):
-    out = os.path.join(scratch, "vworker-" + variant)
-    cmd = ["go", "build", "-tags", "verif"] + VARIANT_FLAGS[variant] + ["-o", out, "./cmd/vworker"]
+    """variant = base[+zoo14:N[:ptr]] — the suffix selects a generated type population for C14,
+    injected into package zoo14 with `go build -overlay`."""
+    base = base_variant(variant)
+    out = os.path.join(scratch, "vworker-" + re.sub(r"[^A-Za-z0-9]", "_", variant))
+    cmd = ["go", "build", "-tags", "verif"] + VARIANT_FLAGS[base]
     env = dict(ENV)
-    if variant == "asan":
+    if base == "asan":
         env["CGO_ENABLED"] = "1"
     t0 = time.time()
+    for extra in variant.split("+")[1:]:
+        if extra.startswith("zoo14:"):
+            parts = extra.split(":")
+            gen = os.path.join(scratch, "types_gen_%s.go" % "_".join(parts[1:]))
+            gcmd = ["go", "run", "./cmd/vgen", "-n", parts[1], "-o", gen] + (["-ptr"] if "ptr" in parts[2:] else [])
+            r = subprocess.run(gcmd, cwd=HARNESS, env=ENV, capture_output=True, text=True)
+            if r.returncode != 0:
+                sys.stderr.write("vgen failed: %s\n" % r.stderr[-2000:])
+                return None, time.time() - t0
+            ov = os.path.join(scratch, "overlay_%s.json" % "_".join(parts[1:]))
+            json.dump({"Replace": {os.path.join(HARNESS, "zoo14", "types_gen.go"): gen}}, open(ov, "w"))
+            cmd += ["-overlay", ov]
+    cmd += ["-o", out, "./cmd/vworker"]
     r = subprocess.run(cmd, cwd=HARNESS, env=env, capture_output=True, text=True)
     if r.returncode != 0:
         sys.stderr.write("BUILD FAILED (%s):\n%s\n" % (variant, r.stderr[-4000:]))
@@ -135,7 +155,7 @@ class Shard:
     def __init__(self, prop, tier, seed, variant, binary, shard, nshards, scratch):
         self.prop, self.tier, self.seed, self.variant, self.binary = prop, tier, seed, variant, binary
         self.shard, self.nshards = shard, nshards
-        self.dir = os.path.join(scratch, "%s-%d" % (variant, shard))
+        self.dir = os.path.join(scratch, "%s-%d" % (re.sub(r"[^A-Za-z0-9]", "_", variant), shard))
         os.makedirs(self.dir, exist_ok=True)
         self.journal = os.path.join(self.dir, "journal.jsonl")
         self.cur = os.path.join(self.dir, "cur")
@@ -193,7 +213,7 @@ class Shard:
             env.update(extra_env)
         errpath = os.path.join(self.dir, "stderr.%d" % self.restarts if only is None else "only.stderr")
         limit = None
-        if self.variant in ("plain", "checkptr"):
+        if base_variant(self.variant) in ("plain", "checkptr"):
             limit = PROPCFG.get(self.prop, {}).get("mem_limit_mb", 6144) * 1024 * 1024
 
         def pre():
@@ -276,6 +296,10 @@ class Shard:
             else:
                 kind, frame = classify_death(err, rc)
                 self.inconclusive.append("worker exited rc=%s with no sub-case in flight (batch %d): %s %s | %s" % (rc, last, kind, frame, first_lines(err)))
+                if last + 1 <= start:
+                    # no progress at all (the worker cannot even start): give up on this shard
+                    self.inconclusive.append("shard abandoned: the worker makes no progress")
+                    return
                 start = last + 1
             if key:
                 # resume at the batch that died: its earlier sub-cases are re-run, the fatal one is
@@ -306,9 +330,9 @@ def common_gojson_frame(a, b):
 
 def worker_env(prop, variant, d):
     env = {"GODEBUG": "invalidptr=1", "GOTRACEBACK": "all"}
-    if variant == "race":
+    if base_variant(variant) == "race":
         env["GORACE"] = "halt_on_error=0 log_path=%s/race history_size=3" % d
-    if variant == "asan":
+    if base_variant(variant) == "asan":
         env["ASAN_OPTIONS"] = "detect_leaks=0:abort_on_error=0:halt_on_error=1"
     env.update(PROPCFG.get(prop, {}).get("env", {}))
     return env
@@ -482,7 +506,7 @@ def run_check(prop, tier, seed, scratch, t0):
                     merged["viol"].append(v)
                 merged["inconcl"] += ["[%s batch %d] %s" % (variant, r["e"], x) for x in (r.get("inconclusive") or [])]
         merged["per_variant"][variant] = {"evaluations": vev, "batches": nb, "shards": ns}
-        if variant == "race":
+        if base_variant(variant) == "race":
             blocks = race_reports(scratch)
             sigs = {}
             for b in blocks:
@@ -571,7 +595,7 @@ def replay(path):
     scratch = tempfile.mkdtemp(prefix="verif-replay-")
     try:
         variant = r.get("variant") or "plain"
-        if variant not in VARIANT_FLAGS:
+        if base_variant(variant) not in VARIANT_FLAGS:
             variant = "plain"
         binary, _ = build_worker(scratch, variant)
         if binary is None:
